@@ -382,6 +382,42 @@ def rule_enum_values(chk):
     chk.floor("C13.floor/enum-sets", len(sets), 10, "model enums", where(fn))
 
 
+ENUM_KIND_TY = {"Bool": 1, "IntLiteral": 2, "Int32": 3, "UInt32": 4}
+
+
+def enum_run(f, fn, spec, kind_ty=None):
+    """parse_rootdefinition_enum walked on a model enumerator list (spec: (constant kind, value) or None per enumerator)
+    -> ("ok", result, [(name, constant, type id)]) | ("aborts", why) | ("unreadable", why)"""
+    import interp as I
+    kind_ty = kind_ty or ENUM_KIND_TY
+    ok = lambda v: I.Enum("Result", "Ok", {"0": v})
+    opt = lambda v: I.Enum("Option", "None") if v is None else I.Enum("Option", "Some", {"0": v})
+    loc = lambda v: I.Enum("Located", None, {"node": v, "location": I.Opaque("location")})
+    tid = lambda n: I.Enum("TypeId", None, {"0": n})
+    layer = {v: I.Enum("TypeLayer", "Scalar", {"0": I.Enum("ScalarType", k)}) for k, v in kind_ty.items()}
+
+    def deref(v):
+        return v.get() if isinstance(v, I.Ref) else v
+    recorded = []
+    ext = {"begin_enum": lambda a: ok(I.Enum("EnumId", None, {"0": 0})), "end_enum": lambda a: ok(()),
+           "parse_expr": lambda a: ok((I.Enum("Expression", "Tagged", {"c": deref(a[0]).fields["c"]}), I.Enum("ExpressionType", None, {"0": tid(deref(a[0]).fields["ty"]), "1": I.Enum("ValueType", "Rvalue")}))),
+           "evaluate_constexpr": lambda a: ok(deref(a[0]).fields["c"]),
+           "TypeRegistry::remove_modifier": lambda a: a[1], "TypeRegistry::get_type_layer": lambda a: layer[deref(a[1]).fields["0"]],
+           "TypeRegistry::register_type": lambda a: tid(kind_ty[deref(a[1]).fields["0"].variant]),
+           "register_enum_value": lambda a, rec=recorded: rec.append((deref(a[2]).fields["node"], deref(a[3]), deref(a[4]).fields["0"])) or ok(())}
+    values = []
+    for i, s_ in enumerate(spec):
+        ex = None if s_ is None else loc(I.Enum("AstExpression", None, {"c": I.Enum("Constant", s_[0], {"0": s_[1]}), "ty": kind_ty[s_[0]]}))
+        values.append(I.Enum("EnumValue", None, {"name": loc("v%d" % i), "value": opt(ex)}))
+    sd = I.Enum("EnumDefinition", None, {"name": loc("E"), "values": values})
+    ctx = I.Enum("Context", None, {"module": I.Enum("Module", None, {"type_registry": I.Opaque("type registry"), "enum_registry": I.Opaque("enum registry")})})
+    try:
+        r = I.Interp(f, max_depth=6, extern=ext).apply(fn, [sd, ctx])
+    except I.Unknown as e:
+        return ("aborts" if "panicking" in str(e) else "unreadable", str(e)[:100])
+    return ("ok", r, recorded)
+
+
 def rule_enum_sequence(chk):
     """parse_rootdefinition_enum read as a function of the enumerator list: explicit values are constant expressions (the
     expression parser and the evaluator are stand-ins that hand over the constant and its type), enumerators without a
@@ -392,43 +428,22 @@ def rule_enum_sequence(chk):
     fn = f.fn("parse_rootdefinition_enum", "rssl_typer")
     if not fn:
         return
-    ok = lambda v: I.Enum("Result", "Ok", {"0": v})
-    opt = lambda v: I.Enum("Option", "None") if v is None else I.Enum("Option", "Some", {"0": v})
-    loc = lambda v: I.Enum("Located", None, {"node": v, "location": I.Opaque("location")})
-    tid = lambda n: I.Enum("TypeId", None, {"0": n})
-    KIND_TY = {"Bool": 1, "IntLiteral": 2, "Int32": 3, "UInt32": 4}
-    LAYER = {v: I.Enum("TypeLayer", "Scalar", {"0": I.Enum("ScalarType", k)}) for k, v in KIND_TY.items()}
-
-    def deref(v):
-        return v.get() if isinstance(v, I.Ref) else v
+    KIND_TY = ENUM_KIND_TY
     lists = {
         "implicit-only": [None, None, None], "after-int": [("Int32", 5), None, None], "after-literal": [("IntLiteral", 7), None, ("IntLiteral", 20), None],
         "after-uint": [("UInt32", 1), None, None], "after-uint-high": [("UInt32", 0x7FFFFFFF), None], "after-uint-above-int": [("UInt32", 0x80000000), None],
         "after-bool": [("Bool", True), None], "after-false": [("Bool", False), None, None], "after-negative": [("Int32", -3), None, None], "mixed": [None, ("UInt32", 10), None, ("Int32", 2), None],
     }
     for lname, spec in lists.items():
-        recorded = []
-        ext = {"begin_enum": lambda a: ok(I.Enum("EnumId", None, {"0": 0})), "end_enum": lambda a: ok(()),
-               "parse_expr": lambda a: ok((I.Enum("Expression", "Tagged", {"c": deref(a[0]).fields["c"]}), I.Enum("ExpressionType", None, {"0": tid(deref(a[0]).fields["ty"]), "1": I.Enum("ValueType", "Rvalue")}))),
-               "evaluate_constexpr": lambda a: ok(deref(a[0]).fields["c"]),
-               "TypeRegistry::remove_modifier": lambda a: a[1], "TypeRegistry::get_type_layer": lambda a: LAYER[deref(a[1]).fields["0"]],
-               "TypeRegistry::register_type": lambda a: tid(KIND_TY[deref(a[1]).fields["0"].variant]),
-               "register_enum_value": lambda a, rec=recorded: rec.append((deref(a[2]).fields["node"], deref(a[3]), deref(a[4]).fields["0"])) or ok(())}
-        values = []
-        for i, s_ in enumerate(spec):
-            ex = None if s_ is None else loc(I.Enum("AstExpression", None, {"c": I.Enum("Constant", s_[0], {"0": s_[1]}), "ty": KIND_TY[s_[0]]}))
-            values.append(I.Enum("EnumValue", None, {"name": loc("v%d" % i), "value": opt(ex)}))
-        sd = I.Enum("EnumDefinition", None, {"name": loc("E"), "values": values})
-        ctx = I.Enum("Context", None, {"module": I.Enum("Module", None, {"type_registry": I.Opaque("type registry"), "enum_registry": I.Opaque("enum registry")})})
         key = "C13.enum-sequence/" + lname
-        try:
-            r = I.Interp(f, max_depth=6, extern=ext).apply(fn, [sd, ctx])
-        except I.Unknown as e:
-            if "panicking" in str(e):
-                chk.ob(key, False, "parse_rootdefinition_enum aborts on the enumerator list %s (%s)" % (spec, str(e)[:80]), where(fn))
-            else:
-                chk.unreadable(key, "parse_rootdefinition_enum on a model enumerator list", str(e)[:100], where(fn))
+        res = enum_run(f, fn, spec)
+        if res[0] == "aborts":
+            chk.ob(key, False, "parse_rootdefinition_enum aborts on the enumerator list %s (%s)" % (spec, res[1][:80]), where(fn))
             continue
+        if res[0] == "unreadable":
+            chk.unreadable(key, "parse_rootdefinition_enum on a model enumerator list", res[1], where(fn))
+            continue
+        _, r, recorded = res
         want = []
         prev = None
         for s_ in spec:
